@@ -4,11 +4,12 @@ import "strings"
 
 func init() { registry["C04"] = checkC04 }
 
-// file contents derived from the path; "big" has sizes that are exact multiples of the 32 KiB zlib window
+// file contents derived from the path; "big" has two versions of the same length, 64 KiB
+// (an exact multiple of the 32 KiB zlib window and of every common buffer size)
 func v1(p string) string {
 	switch p {
 	case "big":
-		return strings.Repeat("0123456789abcdef", 2048)
+		return strings.Repeat("0123456789abcdef", 4096)
 	case "ad", "t":
 		return "" // an empty file
 	case "D", "test.c":
@@ -26,7 +27,7 @@ func v2(p string) string {
 func checkC04(e *RunEnv) *CheckResult {
 	paths := []string{"a", "d/x", "d/y", "d/s/z", "ad/x", "d-x", "d0", "a b", "d/.goit", "big"}
 	singles := []string{"big", "a", "d/x", "d/y", "d/s/z", "ad/x", "d-x", "d0", "a b", "d", "d/s", "ad", "nope", "d/nope", "d/", "./d", "./a", "d/s/."}
-	pairAlpha := []string{"a", "d", "d/x", "nope"}
+	pairAlpha := []string{"a", "d", "d/x", "nope", "ad"}
 	if e.Thorough() {
 		pairAlpha = []string{"a", "d", "d/x", "nope", "ad", "d-x", "d/s"}
 	}
@@ -77,6 +78,16 @@ func checkC04(e *RunEnv) *CheckResult {
 			// type change: the file a replaced by a directory a/ holding an untracked file
 			if _, ok := a.W["a"]; ok {
 				steps = append(steps, Write("a/u", "untracked inside a former file\n"))
+			}
+			if _, ok := a.W["d/x"]; ok {
+				steps = append(steps, Write("d/x/u", "untracked inside a former file of d\n"))
+			}
+			// a temporary file left behind by an earlier, interrupted attempt to store the blob of a
+			if d, ok := a.W["a"]; ok {
+				id := BlobID(d)
+				if _, stored := a.Objects[id]; !stored {
+					steps = append(steps, Write(".goit/objects/"+id[:2]+"/"+id[2:]+".tmp", "left behind"))
+				}
 			}
 			return steps
 		},
